@@ -36,7 +36,7 @@ RULE = (
     "partition the jobs and equal the reference classes. non-trivial = flow: >= 2 event files and >= 4 events; events: >= 2 files and a timestamp tie; "
     "stats: a non-decreasing sequence of length >= 2; tallies: >= 1 job in >= 3 classes; distinct by hash of the case"
 )
-RULE += " Later additions (DESIGN.md 9): " + "flow also runs with the node resource monitor periodic / aggregation and with job processes that log structured events of their own through a held-open handle (chain job file -> node file -> summary; K2 for records written after the finishing submitter read the files); stats also logs per-process samples on the periodic path and compares the consolidated table row by row and ProcessStatsViewer's summary; the events sub-case aggregates through a real JobRunner."
+RULE += " Later additions (DESIGN.md 9): " + "flow also runs with the node resource monitor periodic / aggregation and with job processes that log structured events of their own through a held-open handle (chain job file -> node file -> summary; K2 for records written after the finishing submitter read the files); stats also logs per-process samples on the periodic path and compares the consolidated table row by row and ProcessStatsViewer's summary; the events sub-case aggregates through a real JobRunner. Round 8: a quarter of the flow runs are in local mode; every record handed to the _jade_event logger (observed at logging.Logger.callHandlers) by a process that has already written to an event file must reach an event file."
 ASSUMPTIONS = [
     "resource statistics are non-negative (utilisation percentages, byte and packet counts)",
     "events carry the timestamp format JADE itself writes (str(datetime))",
